@@ -35,8 +35,9 @@ CHECKS = {
              "directed by the declared type; the field rules of the generated Write (required and default always, optional iff set, a union "
              "exactly one, declared ids and wire types); rejection of a missing required field and of a multi-field union by Read; unknown "
              "fields skipped exactly (with field-id deltas in step under compact); Skip exactness; zigzag and varint codecs; the compact reader "
-             "never panics; the compact encoding is injective and prefix-free. The generator's typedef resolution is proved correct under a "
-             "stated side condition and refuted in general (known finding). On every run generated Write and Read of seeded multi-file programs "
+             "never panics; the compact encoding is injective and prefix-free. The current UnderlyingType is proved correct whenever typedef targets "
+             "of included files name no further include (c02_typedef_resolution_fixed_partial) and refuted for transitive includes (C11-K2 family); "
+             "the pinned function's refutation is kept. On every run generated Write and Read of seeded multi-file programs "
              "(generated-code lab: the real frugal compiler, output compiled against the runtime, reflection driver) are replayed on the same Coq "
              "definitions: bytes from generated Write under binary and compact compared byte-exact with the model (up to set/map order); generated "
              "Read fed bytes from independent Python writers (canonical, liberal-but-valid, lying-type, truncated, unknown/missing/duplicated "
@@ -49,16 +50,23 @@ CHECKS = {
         technique="executable Gallina codec models (binary + compact, pending-bool state threaded), nested-induction proofs, trace-validation judges, generated-code lab",
         design="5/C02"),
     "C03": dict(
-        text="8 Coq theorems (no axioms) over an executable model of the generated Go client method, FStandardClient Call/Oneway/processReply, "
-             "FBaseProcessor.Process and the generated processor function (composed from the C02 struct codec and the C04 header codec): for every "
-             "environment, method, argument tuple of the declared types and handler outcome the handler is invoked exactly once with equal "
-             "arguments and the caller gets exactly the mapped outcome, also for inherited methods at any depth and under op-id dispatch; a oneway "
-             "method returning nil produces no reply; an unknown method, wrong reply name or wrong reply type is rejected. Tied to the code on "
-             "every run by trace validation: generated clients and processors (lab) with recording stub handlers over in-memory, adapter + simple "
-             "server on TCP, HTTP and NATS, under binary, compact and JSON; every observed call is replayed by the Coq judge.",
-        note="Trusted: Coq kernel + vm_compute; lab/harness as test equipment. TBinary only has a Coq specification; compact and JSON calls compared at the value level. "
-             "Brokers, sockets and base64 assumed to deliver frames unchanged. Size limits are C12's, unwritable results C14's. Three known findings.",
-        technique="Coq model + proofs + vm_compute judge replaying every observed call; generated-code laboratory over four transports and three protocols",
+        text="20 Coq theorems (no axioms) over an executable model of the generated Go client method, FStandardClient Call/Oneway/processReply, "
+             "FBaseProcessor.Process and the generated processor function, generic over the Thrift protocol (a codec record with four round-trip "
+             "laws, proved for TBinaryProtocol and for a line-by-line model of TCompactProtocol incl. its message envelope and TApplicationException). "
+             "For every environment, method, argument tuple of the declared types and handler outcome the handler is invoked exactly once with "
+             "equal arguments and the caller gets exactly the mapped outcome - under both protocols, for inherited methods at any depth and under "
+             "op-id dispatch; a oneway method returning nil produces no reply; an unknown method, wrong reply name or wrong reply type is rejected. "
+             "Composed with the C01 registry model: for every interleaving of N concurrent calls with pairwise distinct op ids, each caller's "
+             "outcome equals that of the same call made alone (= the mapped handler outcome). Tied to the code on every run: lab-generated "
+             "clients and processors over in-memory, TCP adapter + simple server, HTTP and NATS x binary/compact/JSON; every observed call is "
+             "replayed by the Coq judge, binary and compact at byte level (request and reply that travelled); bursts of concurrent calls through "
+             "one client are replayed on the composed model (theorem hypotheses checked on the frames that travelled, conclusion per caller) and "
+             "each must observe what it observed alone.",
+        note="Trusted: Coq kernel + vm_compute; lab/harness as test equipment. TJSON has no Coq codec; JSON calls are compared at the value level. Reply bytes are "
+             "compared by length plus decoded outcome (map/header order). Brokers, sockets and base64 assumed to deliver frames unchanged. Size limits are C12's, "
+             "unwritable results C14's. Known findings: Thrift JSON special doubles at a 4096 boundary (third party), Go default-from-constant.",
+        technique="Coq model generic over a protocol record + proofs from four codec laws + registry x call composition; vm_compute judges replaying every "
+                  "observed call and every burst round; generated-code laboratory over four transports and three protocols",
         design="5/C03"),
     "C04": dict(
         text="Coq theorems over Model/Headers.v (a byte-level transcription of protocol.go's v0 codec and of the Python codec): "
@@ -73,7 +81,7 @@ CHECKS = {
         text="Coq theorems: both header parsers, ExecuteFrame and ReadRequestHeader are graceful (value or error, never a Go "
              "slice/makeslice panic, never out of fuel) on EVERY byte string below 2 GiB; each message-oriented receiver loop "
              "(NATS inbox, NATS server worker, NATS/STOMP scope subscriber, HTTP handler) never exits or crashes and judges each "
-             "message on its own; the adapter read loop always ends in a closed state. The models keep Go's partiality explicit "
+             "message on its own; the adapter read loop always ends in a closed state, cleanly only between whole frames. The models keep Go's partiality explicit "
              "(Panic results for out-of-range slices), so totality is a real theorem about the bounds checks. Tied to the code by "
              "a correspondence check that feeds boundary-value, exhaustive-small and mutated inputs to every real entry point "
              "(embedded NATS/STOMP brokers, httptest, net.Pipe) and replays them on the model; partial: the Thrift layer under "
@@ -120,12 +128,12 @@ CHECKS = {
              "literals, format calls / interpolation and scoping. For all scope names, operation names, prefixes with 0..n variables, "
              "delimiters and arbitrary runtime values, under explicit decidable side conditions, every publisher and subscriber of Go, "
              "Java, Dart and Python computes exactly prefix[vars:=values]+delim+Title(scope)+delim+op; publisher and subscriber agree "
-             "whenever both evaluate, with no side condition. The pinned defects and the remaining Dart defect are proved as _refuted "
-             "witnesses. Tied to the code on every run: the real compiler emits all six outputs, the judge checks the emitted statement "
+             "whenever both evaluate, with no side condition. The pinned defects and the former Dart defect (repaired; pinned emission kept as _pinned_refuted; Dart side "
+             "condition reduced to no '$') are proved as refuted witnesses. Tied to the code on every run: the real compiler emits all six outputs, the judge checks the emitted statement "
              "text and the evaluated strings (Go's fmt and the compiled generated Go capturing the topic at the transport, javac + "
              "String.format, python3, a Dart interpolation evaluator).",
         note="Trusted: Coq kernel + vm_compute; harness/evaluators as test equipment (no Dart SDK offline). Not modelled: reserved words as "
-             "variable names, escape sequences, format verbs other than %s/%%. One known finding (Dart $var followed by an identifier-like delimiter).",
+             "variable names, escape sequences, format verbs other than %s/%%.",
         technique="Coq generator+evaluator model, induction over prefix segments, trace validation against compiler output and compiled generated code",
         design="5/C08"),
     "C09": dict(
@@ -224,15 +232,17 @@ CHECKS = {
         technique="Coq executable model + interleaving invariants (linearisation by lock order) + regenerated lock-site table + trace-validation judge + independent oracle",
         design="5/C14"),
     "C15": dict(
-        text="17 Coq theorems over an interleaving small-step model of the adapter transport lifecycle, the framing layer and the monitor runner, "
+        text="19 Coq theorems over an interleaving small-step model of the adapter transport lifecycle, the framing layer and the monitor runner, "
              "for all histories, schedules and policies: exactly one cause per connection generation; every failure point closes the transport with "
              "its classified cause; no call or read loop ever blocks; ALREADY_OPEN/NOT_OPEN consistent; generations independent; attempts and waits "
-             "bounded; every close delivered to a live monitor in order; reopen always re-enabled. The pinned code is refuted by witnesses; two "
-             "left-in defects are refuted theorems with known findings. Tie: step-by-step trace validation of the real fAdapterTransport and monitor "
+             "bounded; every close delivered to a live monitor in order; reopen always re-enabled. The pinned code is refuted by witnesses; one "
+             "left-in defect (first wait uncapped, F13) is a refuted theorem with a known finding; the former clean-close-on-truncated-frame defect "
+             "is repaired (nil cause iff Close() or END_OF_FILE between frames: c15_read_error_inside_frame_never_clean), the pinned classification "
+             "kept as a labelled refuted theorem. Tie: step-by-step trace validation of the real fAdapterTransport and monitor "
              "runner (goroutines parked at verif yield hooks) by the Coq judge, plus a direct oracle.",
         note="Trusted: Coq kernel + vm_compute; scripted TTransport harness; close() atomic against the loop's token check; Go mutex/channel semantics; one "
-             "monitor set before the first Open. Not modelled: Request/Oneway write and flush failures. Known findings: first reopen wait not capped by "
-             "MaxWait; EOF inside a frame reported as a clean close.",
+             "monitor set before the first Open. Not modelled: Request/Oneway write and flush failures. Known finding: first reopen wait not capped by "
+             "MaxWait (pinned by TestOnClosedUncleanly).",
         technique="interleaving small-step model + invariants, trace-validation judge, scheduled harness with yield hooks, direct oracle",
         design="5/C15"),
     "C16": dict(
